@@ -1,4 +1,4 @@
-import Varpulis.Lemmas.SaseMulti
+import Varpulis.Lemmas.SaseMulti2
 /-!
 # C03 — Kleene closures report every admissible combination, up to the documented caps
 
@@ -215,6 +215,33 @@ example :
     ((((emittedAll (compile (midSteps none (some p) none)) { maxRuns := 4, lim := ⟨20, 10000⟩ } evs).getD []).getLastD []).map
       fun g => g.map fun m => m.enum.map (·.2)) =
         [[some [2], some [1], some [1, 2], some [0], some [0, 2]], [some [1], some [0], some [0, 1]]] := by
+  decide
+
+/-- **several completions.** `A -> all B -> C` on an *arbitrary* stream — A, B, C and other events in any order, so C events
+interleaved with new A events — all started runs fitting under `max_runs` (no backpressure).  The output is, event by event
+and up to the `swap_remove` permutation inside one event (`EachPerm`), `specRun`: a non-C event reports nothing, advances
+every open run on its own (`Open.adv`: a B is kept iff it passes that run's eager filter and its cap) and may open a run; a C
+event reports the concatenation, over the runs open at that moment, of each run's own report (`ownReport`, the expression
+of the single-run theorems: all its accumulated B events / its own admissible subsets) and removes exactly the runs that
+complete (`survives`: a run without a kept B, or whose C filter fails, stays open unchanged). -/
+theorem kleene_completions_independent (pa pb pc : Option Pred) (cfg : Cfg) (es : List Ev)
+    (hp : cfg.partitioned = false) (hk : 1 ≤ cfg.lim.maxEvents)
+    (hcap : (es.filter (accepts pa)).length ≤ cfg.maxRuns) :
+    ∃ outs, emittedAll (compile (midSteps pa pb pc)) cfg es = some outs ∧
+      EachPerm outs (specRun pa (eagerOf pb) (postOf pb) pc cfg.lim [] 0 es) := by
+  rw [compile_mid]
+  exact emitted_mid_stream pa (eagerOf pb) (postOf pb) pc cfg es hp hk hcap
+
+/-- non-vacuity: two completions; the run opened by the second A is not affected by the first completion and reports
+only its own B events (`x > b.x`: B.x = 1, 2 | 3, 4 → 3 admissible subsets each) -/
+example :
+    let p : Pred := .cmpRef 0 .gt 1 0
+    let ev (i t : Nat) (x : Int) : Ev := { id := i, ty := t, x := some x, y := none }
+    let evs := [ev 0 0 0, ev 1 1 1, ev 2 1 2, ev 3 2 0, ev 4 0 0, ev 5 1 3, ev 6 1 4, ev 7 2 0]
+    ((emittedAll (compile (midSteps none (some p) none)) { maxRuns := 4, lim := ⟨20, 10000⟩ } evs).getD []).map
+      (fun e => e.map fun g => g.map fun m => (m.stack.map (·.ev.id), m.enum.map (·.2))) =
+      [[], [], [], [[([0, 1, 2, 3], some [1]), ([0, 1, 2, 3], some [0]), ([0, 1, 2, 3], some [0, 1])]],
+       [], [], [], [[([4, 5, 6, 7], some [1]), ([4, 5, 6, 7], some [0]), ([4, 5, 6, 7], some [0, 1])]]] := by
   decide
 
 /-! ### patterns whose last step is `all` (consistent filter) -/
